@@ -1528,7 +1528,14 @@ def C12(ctx):
             if p and p[0] == 'nt' and p[3] == host[3]:
                 fail('C12', 'no_transition reported for the event whose processing threw', ctx, fi)
     # 3/5/6: faulted step, configuration afterwards and continuation equal the model
-    for j in range(fi, len(ctx.sut)):
+    compare = True
+    if host and host[3] == 'none' and ctx.cfg % 10 == 2 and st.level.get(behaviour_fsm(ctx, host), 1) >= 2:
+        # whether a completion transition of a SUBmachine that was aborted by an exception is tried again when the
+        # enclosing machine finishes the event is fixed by no property: back does (the enclosing level offers the
+        # completion event to its submachines once more), back + favor_compile_time does not. The model follows back.
+        compare = False
+        classes['completion_fault_in_submachine_back_ct_not_compared'] += 1
+    for j in range(fi, len(ctx.sut) if compare else fi):
         a, b = ctx.sut[j], ctx.model[j]
         if a != b:
             kk = 0
